@@ -996,14 +996,20 @@ impl<'a> Case<'a> {
                 }
                 "ok".into()
             }
-            "crash_set" => {
+            "crash_set" | "bounce_set" => {
                 // several hosts at once, selected by a regex over node names
                 let hs: Vec<usize> = t[1].split(',').map(|h| h[1..].parse().unwrap()).collect();
                 let names: Vec<String> = hs.iter().map(|h| format!("n{h}")).collect();
-                self.sim.crash(regex::Regex::new(&format!("^({})$", names.join("|"))).unwrap());
+                let re = regex::Regex::new(&format!("^({})$", names.join("|"))).unwrap();
+                let up = t[0] == "bounce_set";
+                if up {
+                    self.sim.bounce(re);
+                } else {
+                    self.sim.crash(re);
+                }
                 for h in hs {
                     self.sh.queues.borrow_mut()[h].clear();
-                    self.running[h] = false;
+                    self.running[h] = up;
                 }
                 drain_oracle();
                 "ok".into()
